@@ -121,6 +121,8 @@ type RPCPlan struct {
 	StartGate      int  // caller waits for this gate before starting (0 = none)
 	StartDelay     time.Duration
 
+	pausedHandler bool
+
 	// results filled in at run time (read after the run)
 	Res *RPCResult
 }
@@ -337,10 +339,10 @@ func unaryHandler(srv any, ctx context.Context, dec func(any) error, _ grpc.Unar
 	simrt.Emit(simrt.Event{Kind: EvHandlerStart, A: int64(rpc), S: "/sim.Test/Unary", P: handlerInfo(ts, ctx, "/sim.Test/Unary")})
 	err := h.run(ShapeUnary)
 	if err != nil {
-		simrt.Emit(simrt.Event{Kind: EvHandlerEnd, A: int64(rpc), S2: errString(err), P: err})
+		simrt.Emit(simrt.Event{Kind: EvHandlerEnd, A: int64(rpc), B: b2i(ctx.Err() != nil), S2: errString(err), P: err})
 		return nil, err
 	}
-	defer simrt.Emit(simrt.Event{Kind: EvHandlerEnd, A: int64(rpc)})
+	defer simrt.Emit(simrt.Event{Kind: EvHandlerEnd, A: int64(rpc), B: b2i(ctx.Err() != nil)})
 	if h.unaryResp == nil {
 		h.unaryResp = &wrapperspb.BytesValue{}
 	}
@@ -358,7 +360,7 @@ func streamHandler(srv any, ss grpc.ServerStream, shape int) error {
 	h := &hstream{ts: ts, rpc: rpc, ctx: ctx, ss: ss, plan: ts.W.Plans[rpc]}
 	simrt.Emit(simrt.Event{Kind: EvHandlerStart, A: int64(rpc), S: shapeMethods[shape], P: handlerInfo(ts, ctx, shapeMethods[shape])})
 	err := h.run(shape)
-	simrt.Emit(simrt.Event{Kind: EvHandlerEnd, A: int64(rpc), S2: errString(err), P: err})
+	simrt.Emit(simrt.Event{Kind: EvHandlerEnd, A: int64(rpc), B: b2i(ctx.Err() != nil), S2: errString(err), P: err})
 	return err
 }
 
